@@ -108,8 +108,13 @@ class BuildError(Exception):
 
 
 def _limits():
-    resource.setrlimit(resource.RLIMIT_AS, (6 << 30, 6 << 30))
+    resource.setrlimit(resource.RLIMIT_AS, (12 << 30, 12 << 30))
     resource.setrlimit(resource.RLIMIT_CORE, (0, 0))
+    try:
+        # deep (but legitimate) recursion in the model's evaluators needs more than the default 8 MB
+        resource.setrlimit(resource.RLIMIT_STACK, (2 << 30, 2 << 30))
+    except (ValueError, OSError):
+        pass
 
 
 def run_server(cmd, requests, per_request_timeout=20.0, total_timeout=None):
